@@ -9,35 +9,45 @@ import shutil
 import tempfile
 import zlib
 
-from harness.common import Ck, coq_bytes, coq_list, parse_coq_N_list
-from translate import c13_vpk
+from harness.common import Ck, coq_bytes, coq_list, coq_str, parse_coq_N_list
+from translate import c13_archname, c13_vpk
 
 MANIFEST = dict(
-    technique='Rocq proof (directory-tree codec round trip; write_dirfile+reopen preserves every entry for every placement; '
-              'one write reads back; read-only rejection; name forms) + ast translator for format constants/placement sites + '
-              'vm_compute correspondence of a whole-history state machine incl. independent decode of the on-disk directory + '
-              'oracle search on real temp dirs',
-    text='Theorems in Props/C13.v: for every format instance with in-range constants load_dirfile(write_dirfile(tree, footer)) '
-         'returns the same entries (offset normalised when nothing is stored outside the tree) and footer; grouping/sorting the '
-         'table for writing is a permutation of it; after one FileInfo.write the file reads back exactly the data and verifies, '
-         'for every placement (preload, directory tail, numbered archive, singular), dir_limit and size; write_dirfile followed by '
-         'reopening in r/a mode succeeds and yields exactly the same files with the same bytes, verify() and checksums; read-only '
-         'archives reject every mutation unchanged; the three name forms of a path resolve to the same key (for every normpath). '
-         'The format constants, struct layouts, sentinel tests, the footer placement site, the preload cap and the index/name '
-         'validation sites are regenerated from vpk.py on every run and kernel-checked as instance obligations. The whole-history '
-         'statement (any sequence of operations agrees with a plain map) is NOT proved by induction: the executable model SM/Vpk.v '
-         'is run against the implementation on random histories on real directories (result codes, per-file bytes, verify, '
-         'byte-exact _dir file and archives via length+CRC32), and the model decoder decodes the bytes the implementation wrote '
-         '(plus damaged copies); an oracle compares the implementation with a dict over histories crossing every placement.',
-    note='Trusted: Coq kernel + vm_compute (incl. Uint63 for the test CRC-32), translate/c13_vpk.py, hand models Fmt/VpkDir.v, '
-         'SM/Vpk.v, Fmt/VpkName.v (tied by differential runs), zlib.crc32 (a Section variable in the theorems; its chaining '
-         'crc32(b, crc32(a)) = crc32(a+b) is assumed), posixpath.normpath (a parameter of name_forms_agree), OS append/seek '
-         'semantics. CRC collisions: FileInfo.write skips a write whose checksum equals the stored one (theorem premise crc d <> '
-         'stored crc). VPK version 2 headers, the root= argument, add_folder/extract_all and VPKFileSystem are outside the model. '
-         'File names whose last component ends in "." are listed without the dot (known finding name-trailing-dot).',
+    technique='Rocq proof: whole-history refinement of the executable VPK state machine to a plain map (invariant + induction over the '
+              'operation list, every placement/dir_limit/size, CRC as a Section function with an explicit no-collision premise); directory-tree '
+              'codec round trip (versions 1 and 2); archive file naming (writer and readers use the same file, symbolic evaluation of the '
+              'translated prefix expressions); name forms; read-only rejection + ast translators (format constants, placement/validation sites, '
+              'prefix expression of every get_arch_filename site, the split statement of _get_file_parts) with kernel-checked instance '
+              'obligations + vm_compute correspondence (histories on real directories byte-exact, independent decode incl. version 2 and damaged '
+              'files, archive names really opened, name forms) + oracle search with a strict independent decoder',
+    text='Theorems in Props/C13.v. c13_vpk_refines_map: for every configuration that validates indexes and names, every finite sequence of '
+         'new_file/add_file/FileInfo.write/del/write_dirfile/reopen(r,w,a) on a fresh archive whose write_dirfile calls do not overflow a 32-bit '
+         'field and whose data values (with the empty string) do not collide under the checksum: the model SM/Vpk.v returns the result code of '
+         'the specification map at every operation and afterwards is in the same mode, lists exactly the map\'s names, and every file reads '
+         'back the map\'s bytes and verifies; c13_history_save_reopen: the same at the property\'s observation point (any history, '
+         'write_dirfile, reopen r/a). Ingredients kept as theorems: load_dirfile(write_dirfile(tree, footer)) returns the same entries and '
+         'footer for every format instance with in-range constants (version 1; version 2 with the four extra header fields skipped, read side '
+         'only); grouping/sorting for writing is a permutation; one write reads back for every placement; save+reopen preserves every entry; '
+         'read-only archives reject every mutation. Archive naming: for every file name ending in the directory suffix and every index the '
+         'file FileInfo.write appends to is the file read/verify open (= get_arch_filename(prefix, index)), get_arch_filename(prefix) is the '
+         'directory file, distinct indexes are distinct files and none is the directory file; character stripping (rstrip) is refuted by a '
+         'computed witness. Name forms: string, 2-tuple and 3-tuple agree for every normpath whenever the translated split statement cuts at '
+         'the last dot (first-dot split refuted). All generic theorems are instantiated by kernel-checked obligations on Gen/VpkPlace_gen.v and '
+         'Gen/VpkArchName_gen.v regenerated from vpk.py on every run.',
+    note='The model SM/Vpk.v (step/run), the codec Fmt/VpkDir.v/VpkDirV2.v, Fmt/VpkName.v and the string primitives of Fmt/VpkArchName.v are '
+         'hand-written and tied to srctools.vpk by differential runs on every run (not by proof): histories on real temp directories compared '
+         'byte-exactly, decode of written/damaged/version-2 files, the archive files really opened by the three get_arch_filename sites, name '
+         'forms. Trusted: Coq kernel + vm_compute (incl. Uint63 for the test CRC-32), translate/c13_vpk.py, translate/c13_archname.py, '
+         'zlib.crc32 (a Section variable in the theorems; its chaining crc32(b, crc32(a)) = crc32(a+b) is assumed), posixpath.normpath (a '
+         'parameter of the name theorems), OS append/seek semantics (archives modelled as append-only byte lists; the "ab" open mode and '
+         'seek(0, SEEK_END) are a translated site). Premises that are real limits of the code: a write whose CRC-32 equals the stored one is '
+         'skipped (collision premise); fields >= 4 GiB make write_dirfile raise. Outside the model: writing version 2, the root= argument, '
+         'add_folder/extract_all/script_write, VPKFileSystem, stale FileInfo handles, other processes, archive files present before the '
+         'history. File names whose last component ends in "." are listed without the dot (known finding name-trailing-dot).',
 )
 
-IMPORTS = ['Coq.Lists.List', 'Coq.NArith.NArith', 'SV.Fmt.VpkDir', 'SV.SM.Vpk', 'SV.SM.VpkCorr', 'SV.Gen.VpkPlace_gen']
+IMPORTS = ['Coq.Lists.List', 'Coq.NArith.NArith', 'SV.Fmt.VpkDir', 'SV.SM.Vpk', 'SV.Fmt.VpkArchName', 'SV.SM.VpkCorr', 'SV.Gen.VpkPlace_gen',
+           'SV.Gen.VpkArchName_gen']
 PRE = 'Import ListNotations. Open Scope N_scope.\n'
 
 R_OK, R_RO, R_EXISTS, R_MISSING, R_BADNAME, R_BADIDX, R_BADDIR, R_EXC = 0, 1, 2, 3, 4, 5, 6, 9
@@ -129,6 +139,11 @@ TRAILING_DOT = ['a/b.c.', 'b.', 'a/b..', 'x/y.z.w.']
 ALPH = 'ab./ A\\~'
 
 
+def bud(ck: Ck, quick: int, mid: int, thorough: int) -> int:
+    """Case budget: quick tier; quick tier after a tie broke (escalated, but kept within the quick wall-time limit); thorough tier."""
+    return thorough if ck.thorough else (mid if ck.tie_broken else quick)
+
+
 def rand_name(rng: random.Random) -> str:
     r = rng.random()
     if r < 0.75:
@@ -160,10 +175,17 @@ def rand_size(rng: random.Random, limit, big: bool) -> int:
 BASES = ['pak', 'world', 'sound', 'pak01', 'did', 'r', 'a_dir', 'x.vpk', 'mod_', 'Dir', 'vpk']
 
 
+def case_fname(cfg: dict) -> str:
+    """The archive's own file name: <base>_dir.vpk for a directory VPK, <base>.vpk for a singular one."""
+    return cfg.get('base', 'pak') + ('_dir.vpk' if cfg['dir'] else '.vpk')
+
+
 def gen_case(rng: random.Random, big: bool = False, nops: int | None = None, small: bool = False) -> dict:
     cfg = {'dir': rng.random() < 0.75, 'limit': rng.choice(LIMITS)}
     if rng.random() < 0.5:      # the archive's own file name: prefixes that end in characters of '_dir', contain '_dir' or '.vpk'
         cfg['base'] = rng.choice(BASES)
+        if case_fname(cfg).endswith('_dir.vpk'):      # 'a_dir' + '.vpk' is a directory VPK whatever was drawn
+            cfg['dir'] = True
     if big:
         cfg['limit'] = rng.choice([None, 0, 1024, 70000, 65535])
     if small:       # for in-Coq evaluation: sizes stay around small limits
@@ -303,7 +325,7 @@ def run_impl(case: dict, want_files: bool = False) -> dict:
     cfg = case['cfg']
     d = tempfile.mkdtemp(prefix='c13_', dir=os.environ.get('VERIF_SCRATCH', '/var/tmp'))
     base = cfg.get('base', 'pak')
-    fname = base + ('_dir.vpk' if cfg['dir'] else '.vpk')
+    fname = case_fname(cfg)
     path = os.path.join(d, fname)
     steps = []
     try:
@@ -351,7 +373,10 @@ def run_impl(case: dict, want_files: bool = False) -> dict:
             forms[(info.dir, info._filename, info.ext)] = _forms_resolve(vpk, info, full)
         res['forms'] = forms
         res['len'] = len(vpk)
-        res['verify_all'] = bool(vpk.verify_all())
+        try:
+            res['verify_all'] = bool(vpk.verify_all())
+        except Exception:      # noqa
+            res['verify_all'] = False
         res['entries'] = {(i.dir, i._filename, i.ext): (i.crc, dg(i.start_data), i.arch_index, i.offset, i.arch_len) for i in vpk}
         res['footer'] = dg(vpk.footer_data)
         return res
@@ -365,6 +390,53 @@ def _forms_resolve(vpk, info, full: str) -> bool:
         return all((f in vpk) and (vpk[f] is info) for f in (make_form(full, 's'), make_form(full, '2'), make_form(full, '3')))
     except Exception:      # noqa
         return False
+
+
+def strict_decode(raw: bytes) -> tuple[dict, bytes]:
+    """An independent, strict reader of a version-1 directory file (written for this check, shares no code with vpk.py):
+    the tree must end exactly where the header's tree length says; everything after it is the trailing data block."""
+    import struct
+    if len(raw) < 12:
+        raise ValueError('short header')
+    sig, ver, tlen = struct.unpack_from('<III', raw, 0)
+    if sig != 0x55aa1234 or ver != 1:
+        raise ValueError(f'signature/version {sig:#x}/{ver}')
+    end = 12 + tlen
+    if end > len(raw):
+        raise ValueError(f'tree length {tlen} exceeds the file')
+    pos = 12
+
+    def cstr():
+        nonlocal pos
+        z = raw.index(b'\x00', pos, end)
+        t = raw[pos:z].decode('ascii', 'surrogateescape')
+        pos = z + 1
+        return t
+    ents = {}
+    while True:
+        ext = cstr()
+        if ext == '':
+            break
+        while True:
+            folder = cstr()
+            if folder == '':
+                break
+            while True:
+                name = cstr()
+                if name == '':
+                    break
+                if pos + 18 > end:
+                    raise ValueError('entry crosses the end of the tree')
+                crc, plen, ai, off, alen, term = struct.unpack_from('<IHHIIH', raw, pos)
+                pos += 18
+                if term != 0xffff or pos + plen > end:
+                    raise ValueError('bad terminator / preload crosses the end of the tree')
+                k = tuple('' if x == ' ' else x for x in (folder, name, ext))
+                ents[k] = (crc, dg(raw[pos:pos + plen]), None if ai == 0x7fff else ai, off if alen else 0, alen)
+                pos += plen
+    if pos != end:
+        raise ValueError(f'tree ends at byte {pos}, header says {end}')
+    return ents, raw[end:]
 
 
 def check_case(case: dict) -> tuple[str, str, int] | None:
@@ -410,6 +482,15 @@ def check_case(case: dict) -> tuple[str, str, int] | None:
     for k, ok in got['forms'].items():
         if not ok and not (k[2] == '' and '.' in k[1]):
             return ('name-forms-disagree', f'string/2-tuple/3-tuple forms of {join_parts(*k)!r} do not all resolve to the entry {k}', n)
+    # independent decode of the bytes on disk (the last operations are write_dirfile + reopen, so the file is the saved state)
+    if exp[-1]['code'] == R_OK and case['ops'][-1][0] == 'reopen' and case['ops'][-1][1] != 'w':
+        try:
+            ents, foot = strict_decode(got['disk'])
+        except Exception as e:      # noqa
+            return ('independent-decode-rejects', f'the directory file written by write_dirfile is not a well-formed version-1 directory: {type(e).__name__}: {e}'[:300], n)
+        if ents != got['entries'] or dg(foot) != got['footer']:
+            return ('independent-decode-mismatch', f'an independent reader finds {len(ents)} entries / {len(foot)} trailing bytes in the directory file, '
+                    f'the library loads {len(got["entries"])} / {got["footer"][0]}', n)
     return None
 
 
@@ -466,8 +547,8 @@ CORPUS = [
 
 
 def search(ck: Ck) -> None:
-    n_small = ck.budget(400, 6000)
-    n_big = ck.budget(14, 300)
+    n_small = bud(ck, 400, 1500, 6000)
+    n_big = bud(ck, 14, 40, 300)
     found: dict[str, tuple] = {}
     cases = list(CORPUS)
     for _ in range(n_small):
@@ -478,6 +559,13 @@ def search(ck: Ck) -> None:
         ck.count('oracle_histories')
         cfg = case['cfg']
         ck.hist('oracle_cfg', f"{'dir' if cfg['dir'] else 'single'}/limit={cfg['limit']}")
+        # premise of c13_vpk_refines_map: the data values of the history (and b'') do not collide under CRC-32
+        vals = {b''} | {gen_data(*o[3]) for o in case['ops'] if o[0] in ('add', 'write')}
+        if len({zlib.crc32(v) for v in vals}) != len(vals):
+            ck.hist('refinement_premise', 'history with a CRC-32 collision')
+            ck.notes.append(f'history with a CRC-32 collision among its data values (outside the refinement theorem): {case!r}'[:400])
+        else:
+            ck.hist('refinement_premise', 'data values collision-free under CRC-32')
         sp = run_spec(case)
         for op, e in zip(case['ops'], sp):
             ck.hist('oracle_ops', op[0] + (':' + op[1] if op[0] == 'reopen' else ''))
@@ -549,7 +637,8 @@ def c_op(op) -> str | None:
 
 def c_cfg(cfg) -> str:
     lim = 'None' if cfg['limit'] is None else f'(Some {cfg["limit"]})'
-    return f'(g_vcfg {"true" if cfg["dir"] else "false"} {lim})'
+    # whether the archive is a directory VPK is decided by the naming model (the translated filename setter) from the file name
+    return f'(g_vcfg (match dir_prefix_of g_ncfg {coq_str(case_fname(cfg))} with Some _ => true | None => false end) {lim})'
 
 
 def c_dg(d) -> str:
@@ -559,8 +648,8 @@ def c_dg(d) -> str:
 def corr_machine(ck: Ck) -> None:
     """SM/Vpk.v run on the same histories as the implementation: per-op code and summary, final per-file digests,
     byte-exact directory file and archives (length + CRC32)."""
-    n_small = ck.budget(220, 3000)
-    n_big = ck.budget(3, 40)
+    n_small = bud(ck, 220, 600, 3000)
+    n_big = bud(ck, 3, 8, 40)
     cases = [c for c in CORPUS]
     for _ in range(n_small):
         cases.append(gen_case(ck.rng, small=True))
@@ -621,7 +710,7 @@ def corr_decode(ck: Ck) -> None:
     """Independent decode: the bytes the implementation wrote (and truncations of them) through the model decoder,
     against what the implementation itself loads from those bytes."""
     from srctools.vpk import VPK
-    n = ck.budget(100, 1200)
+    n = bud(ck, 100, 300, 1200)
     lits = []
     nbad_files = 0
     d = tempfile.mkdtemp(prefix='c13d_', dir=os.environ.get('VERIF_SCRATCH', '/var/tmp'))
@@ -638,37 +727,69 @@ def corr_decode(ck: Ck) -> None:
             raw = got['disk']
             if len(raw) > 6000:
                 continue
-            variants = [raw]
+            variants = [('v1', raw)]
             if raw and j % 2 == 0:
-                variants.append(raw[:ck.rng.randrange(0, len(raw))])
+                variants.append(('damaged', raw[:ck.rng.randrange(0, len(raw))]))
             if len(raw) > 13 and j % 3 == 0:
                 b = bytearray(raw)
                 p = ck.rng.randrange(12, len(b))
                 b[p] = ck.rng.choice([0, 32, 255, b[p] ^ 1])
-                variants.append(bytes(b))
-            for v in variants:
+                variants.append(('damaged', bytes(b)))
+            if len(raw) >= 12:
+                # version 2: same tree and trailing bytes, four more header fields (arbitrary values); the code cannot write these
+                hdr4 = bytes(ck.rng.choice([0, 1, 16, 255, ck.rng.randrange(256)]) for _ in range(16))
+                v2 = raw[:4] + (2).to_bytes(4, 'little') + raw[8:12] + hdr4 + raw[12:]
+                variants.append(('v2', v2))
+                if j % 4 == 0:
+                    variants.append(('v2-damaged', v2[:ck.rng.randrange(12, len(v2))]))
+                if j % 5 == 0:
+                    variants.append(('bad-version', raw[:4] + ck.rng.choice([0, 3, 258]).to_bytes(4, 'little') + raw[8:]))
+            v1_ents = None
+            for kind, v in variants:
                 p = os.path.join(d, 'x_dir.vpk')
                 with open(p, 'wb') as f:
                     f.write(v)
                 try:
                     vp = VPK(p, mode='r')
                     ents = {(i.dir, i._filename, i.ext): (i.crc, dg(i.start_data), i.arch_index, i.offset, i.arch_len) for i in vp}
+                    if kind == 'v1':
+                        v1_ents = (ents, vp.footer_data)
+                    elif kind == 'v2' and v1_ents is not None and (v1_ents != (ents, vp.footer_data) or vp.version != 2):
+                        # oracle, independent of the model: the version-2 copy must list the same entries and trailing data
+                        ck.violation('v2-entries-differ', f'a version-2 copy of a directory written by write_dirfile loads {len(ents)} entries / '
+                                     f'{len(vp.footer_data)} footer bytes (version {vp.version}); the version-1 file has {len(v1_ents[0])} / {len(v1_ents[1])}',
+                                     {'v2_file_hex': v.hex()[:6000], 'how': 'write the bytes to x_dir.vpk, open with VPK(mode="r"), compare with the same file with version 1 and without bytes 12..28'})
                     el = coq_list(f'({c_key(k)}, ({c}, {c_dg(pd)}, {c_idx(x)}, {o}, {l}))' for k, (c, pd, x, o, l) in sorted(ents.items()))
-                    exp = f'(Some ({el if el != "[]" else "@nil ent_t"}, {c_dg(dg(vp.footer_data))}))'
+                    exp = f'(Some ({vp.version}, {el if el != "[]" else "@nil ent_t"}, {c_dg(dg(vp.footer_data))}))'
                     if ents:
                         ck.seen(('dec', v))
-                except Exception:      # noqa
+                    if kind == 'v2':
+                        # a version-2 archive is read-only in effect: write_dirfile must refuse before touching the file
+                        va = VPK(p, mode='a')
+                        try:
+                            va.write_dirfile()
+                            refused = False
+                        except NotImplementedError:
+                            refused = True
+                        with open(p, 'rb') as f:
+                            if not refused or f.read() != v:
+                                ck.violation('v2-write_dirfile-damages-file', 'write_dirfile on a version-2 archive did not refuse, or changed the file',
+                                             {'file_hex': v.hex()[:4000]})
+                except Exception as e:      # noqa
                     exp = 'None'
                     nbad_files += 1
+                    if kind == 'v2' and v1_ents is not None:
+                        ck.violation('v2-entries-differ', f'a version-2 copy of a directory written by write_dirfile is rejected: {type(e).__name__}: {e}'[:300],
+                                     {'v2_file_hex': v.hex()[:6000]})
                 lits.append(f'({coq_bytes(v)}, {exp})')
                 ck.count('corr_decoded_files')
-                ck.hist('decode_input', 'written by write_dirfile' if v is raw else 'damaged')
+                ck.hist('decode_input', {'v1': 'written by write_dirfile', 'v2': 'version 2 (patched header)'}.get(kind, kind))
     finally:
         shutil.rmtree(d, ignore_errors=True)
     bad = []
     for lo in range(0, len(lits), 200):
         part = lits[lo:lo + 200]
-        vals = ck.coq_eval(IMPORTS, [f'bad_idx (fun c : bytes * option (list ent_t * (N * N)) => check_decode g_dcfg (fst c) (snd c)) 0 {coq_list(part)}'],
+        vals = ck.coq_eval(IMPORTS, [f'bad_idx (fun c : bytes * option (N * list ent_t * (N * N)) => check_decode_v g_dcfg (fst c) (snd c)) 0 {coq_list(part)}'],
                            name='vpkdec', preamble=PRE)
         if vals is None:
             ck.obligation('correspondence:decode', False, 'model could not be evaluated')
@@ -676,8 +797,8 @@ def corr_decode(ck: Ck) -> None:
             return
         bad += [lo + i for i in parse_coq_N_list(vals[0])]
     ck.obligation('correspondence:decode', not bad,
-                  f'{len(lits)} directory files written by the implementation ({nbad_files} damaged ones it rejects), decoded by the model '
-                  f'decoder Fmt/VpkDir.v dec_file vs load_dirfile: {len(bad)} disagreements')
+                  f'{len(lits)} directory files written by the implementation, damaged copies and version-2 copies ({nbad_files} it rejects), decoded '
+                  f'by the model decoder Fmt/VpkDirV2.v dec_file_v (version, entries, footer) vs load_dirfile: {len(bad)} disagreements')
     if bad:
         ck.tie_broken.append('correspondence VPK directory decode (Fmt/VpkDir.v dec_file vs VPK.load_dirfile)')
         ck.extra['decode_disagreement'] = {'literal': lits[bad[0]][:3000]}
@@ -686,7 +807,7 @@ def corr_decode(ck: Ck) -> None:
 def corr_names(ck: Ck) -> None:
     """Fmt/VpkName.v file_parts / join_parts vs _get_file_parts / _join_file_parts."""
     from srctools.vpk import _get_file_parts, _join_file_parts
-    n = ck.budget(1500, 20000)
+    n = bud(ck, 1500, 6000, 20000)
     forms = []
     for nm in NAME_POOL + TRAILING_DOT + BAD_NAMES:
         for k in 's23':
@@ -723,8 +844,8 @@ def corr_names(ck: Ck) -> None:
     bad = []
     for lo in range(0, len(lits), 500):
         part = lits[lo:lo + 500]
-        vals = ck.coq_eval(IMPORTS + ['SV.Fmt.VpkName'], [
-            'bad_idx (fun c : nameform * key * bytes => andb (key_eqb (file_parts posix_normpath (fst (fst c))) (snd (fst c))) '
+        vals = ck.coq_eval(IMPORTS + ['SV.Fmt.VpkName', 'SV.Fmt.VpkNameSplit'], [
+            'bad_idx (fun c : nameform * key * bytes => andb (key_eqb (file_parts_k posix_normpath g_ext_split (fst (fst c))) (snd (fst c))) '
             f'(bytes_eqb (join_parts (snd (fst c))) (snd c))) 0 {coq_list(part)}'], name='vpknames', preamble=PRE)
         if vals is None:
             ck.obligation('correspondence:names', False, 'model could not be evaluated')
@@ -732,10 +853,109 @@ def corr_names(ck: Ck) -> None:
             return
         bad += [lo + i for i in parse_coq_N_list(vals[0])]
     ck.obligation('correspondence:names', not bad,
-                  f'{len(lits)} name forms, Fmt/VpkName.v file_parts/join_parts vs _get_file_parts/_join_file_parts: {len(bad)} disagreements')
+                  f'{len(lits)} name forms, Fmt/VpkNameSplit.v file_parts_k over the translated split statement / join_parts vs _get_file_parts/_join_file_parts: {len(bad)} disagreements')
     if bad:
         ck.tie_broken.append('correspondence VPK names (Fmt/VpkName.v vs _get_file_parts)')
         ck.extra['names_disagreement'] = {'form': repr(forms[bad[0]]), 'impl': repr(_get_file_parts(forms[bad[0]]))}
+
+
+# ------------------------------------------------------------------------------------------------ archive file names
+NAME_SUFFIXES = ['_dir.vpk', '.vpk', '', '_dir', 'dir.vpk', '_DIR.vpk', '.vpk_dir.vpk', '_dir.vpk.vpk', '_dir_dir.vpk', '__dir.vpk']
+NAME_INDEXES = [0, 1, 7, 10, 99, 100, 999, 1000, 32766]
+
+
+def arch_sites_impl(fname: str, idxs: list[int]) -> tuple:
+    """What the implementation's three get_arch_filename sites really open for the VPK file name `fname`:
+    (_dir_prefix, [[name appended to by FileInfo.write, name opened by read, name opened by verify] per index])."""
+    from srctools.vpk import VPK
+    d = tempfile.mkdtemp(prefix='c13n_', dir=os.environ.get('VERIF_SCRATCH', '/var/tmp'))
+    try:
+        vpk = VPK(os.path.join(d, fname), mode='w', dir_data_limit=0)
+        out = []
+        for i in idxs:
+            before = set(os.listdir(d))
+            vpk.add_file(f'f{i}.x', b'abc', arch_index=i)
+            made = sorted(set(os.listdir(d)) - before)
+            if len(made) > 1:
+                raise RuntimeError(f'one write created {made}')
+            info = vpk[f'f{i}.x']
+            for m in made:
+                os.remove(os.path.join(d, m))
+            if not made:        # singular VPK: the data stayed in the file itself; point the entry at archive i to reach the read sites
+                info.arch_index, info.arch_len, info.offset = i, 1, 0
+            opened = []
+            for fn in (info.read, info.verify):
+                try:
+                    fn()
+                    opened.append(None)
+                except FileNotFoundError as e:
+                    opened.append(os.path.relpath(e.filename, d))
+            out.append([made[0] if made else None] + opened)
+        return vpk._dir_prefix, out
+    finally:
+        shutil.rmtree(d, ignore_errors=True)
+
+
+def c_ostr(x) -> str:
+    return 'None' if x is None else f'(Some {coq_str(x)})'
+
+
+def corr_archnames(ck: Ck) -> list[str]:
+    """Fmt/VpkArchName.v over the translated configuration vs the files the implementation's sites open."""
+    n = bud(ck, 70, 150, 700)
+    names = [b + sfx for b in BASES for sfx in NAME_SUFFIXES]
+    ck.rng.shuffle(names)
+    names = ['world_dir.vpk', 'pak01_dir.vpk', 'x.vpk', 'a_dir.vpk', '_dir.vpk', 'r_dir.vpk', 'did_dir.vpk'] + names
+    alph = '_dir.vpka0'
+    while len(names) < n * 2:
+        nm = ''.join(ck.rng.choice(alph) for _ in range(ck.rng.choice([1, 2, 4, 6, 9, 12])))
+        if ck.rng.random() < 0.6:
+            nm += ck.rng.choice(['_dir.vpk', '.vpk', 'r_dir.vpk'])
+        names.append(nm)
+    seen, lits, kept = set(), [], []
+    for nm in names:
+        if nm in seen or nm in ('.', '..') or len(lits) >= n:
+            continue
+        seen.add(nm)
+        idxs = ck.rng.sample(NAME_INDEXES, 2)
+        try:
+            dp, sites = arch_sites_impl(nm, idxs)
+        except Exception as e:      # noqa
+            ck.notes.append(f'corr_archnames: implementation run failed for {nm!r}: {e!r}')
+            continue
+        ex = f'({c_ostr(dp)}, {coq_list(coq_list(c_ostr(x) for x in row) for row in sites)})'
+        lits.append(f'({coq_str(nm)}, {coq_list(str(i) for i in idxs)}, {ex})')
+        kept.append((nm, idxs, dp, sites))
+        ck.count('corr_archive_names')
+        ck.hist('archive_name_kind', 'directory' if dp is not None else 'singular')
+        if dp is not None:
+            ck.seen(('an', nm, tuple(idxs)))
+    vals = ck.coq_eval(IMPORTS, [
+        'bad_idx (fun c : list N * list N * (option (list N) * list (list (option (list N)))) => '
+        f'check_archname g_ncfg (fst (fst c)) (snd (fst c)) (snd c)) 0 {coq_list(lits)}'], name='vpkarch', preamble=PRE)
+    if vals is None:
+        ck.obligation('correspondence:archive-names', False, 'model could not be evaluated')
+        ck.tie_broken.append('correspondence VPK archive names: model evaluation failed')
+        return []
+    bad = parse_coq_N_list(vals[0])
+    ck.obligation('correspondence:archive-names', not bad,
+                  f'{len(lits)} VPK file names x 2 indexes: Fmt/VpkArchName.v over the translated sites (_dir_prefix, file appended to by '
+                  f'FileInfo.write, files opened by read/verify) vs the files the implementation really opens: {len(bad)} disagreements')
+    if kept:
+        ck.sample({'vpk file name': kept[0][0], 'indexes': kept[0][1], '_dir_prefix': kept[0][2], 'write/read/verify open': kept[0][3]})
+    out = []
+    if bad:
+        ck.tie_broken.append('correspondence VPK archive names (Fmt/VpkArchName.v vs get_arch_filename sites)')
+        ck.extra['archname_disagreement'] = {'name': kept[bad[0]][0], 'indexes': kept[bad[0]][1], 'impl': repr(kept[bad[0]][2:])}
+    # oracle on the same observations, independent of the model: the writer's file is the file both readers open
+    for nm, idxs, dp, sites in kept:
+        for i, row in zip(idxs, sites):
+            if row[0] is not None and (row[1] != row[0] or row[2] != row[0]):
+                out.append(nm)
+                ck.violation('archive-name-mismatch', f'VPK {nm!r}, archive index {i}: FileInfo.write appends to {row[0]!r}, read opens {row[1]!r}, '
+                             f'verify opens {row[2]!r}', {'fname': nm, 'indexes': [i], 'how': 'checks.c13.arch_sites_impl(fname, indexes)'})
+                break
+    return out
 
 
 # ------------------------------------------------------------------------------------------------ main
@@ -745,22 +965,26 @@ def run(ck: Ck) -> None:
                '65535/65536 up to 300000, limits None/0/1/4/8/64/1024/70000, indexes None/0/1/.../32766 and out-of-range, _dir and '
                'singular archives, always ending in write_dirfile + reopen; non-trivial = at least one file exists at the end and '
                'at least 3 operation kinds occur; distinct by full history. decode: files written by the implementation and '
-               'truncated/byte-flipped copies, non-trivial = at least one entry loads. names: pool + random strings over '
-               '"ab./\\\\ ", non-trivial = not all parts empty.')
-    ck.trusted.append('hand-written models Fmt/VpkDir.v, SM/Vpk.v, Fmt/VpkName.v (tied by differential correspondence on every run); '
-                      'zlib.crc32 incl. its chaining property; posixpath.normpath')
+               'truncated/byte-flipped copies, version-2 copies (header patched, 16 arbitrary bytes inserted) and bad-version copies, '
+               'non-trivial = at least one entry loads. names: pool + random strings over "ab./\\\\ ", non-trivial = not all parts empty. '
+               'archive names: VPK file names = bases ending in/containing characters of "_dir.vpk" x suffixes (_dir.vpk, .vpk, none, _dir, '
+               'dir.vpk, _DIR.vpk, ...) + random strings over "_dir.vpka0", two distinct indexes from 0..32766 each; observed = _dir_prefix and '
+               'the file each of the three get_arch_filename sites really opens; non-trivial = a directory VPK.')
+    ck.trusted.append('hand-written models Fmt/VpkDir.v, Fmt/VpkDirV2.v, SM/Vpk.v, Fmt/VpkName.v, string primitives of Fmt/VpkArchName.v (tied by '
+                      'differential correspondence on every run); zlib.crc32 incl. its chaining property; posixpath.normpath; '
+                      'translate/c13_archname.py')
     ck.assumptions += [
-        'CRC-32 of the new data differs from the stored checksum unless the data is the same (premise of c13_write_reads: FileInfo.write skips a write whose checksum equals the stored one)',
-        'no archive or directory field exceeds 32 bits (write_dirfile would raise struct.error; c13_save_reopen_reads is stated for saves that succeed)',
-        'whole histories are covered by correspondence and search, not by an inductive theorem',
-        'fresh directory: no numbered archive files exist before the history starts; one process at a time',
+        'the data values written in one history, together with the empty string, have pairwise different CRC-32 unless equal (premise collision_free of c13_vpk_refines_map: FileInfo.write skips a write whose checksum equals the stored one; checked with zlib on every generated history, see input_distribution.refinement_premise)',
+        'no archive or directory field exceeds 32 bits (write_dirfile would raise struct.error; the refinement is stated for histories whose run is not None)',
+        'fresh directory: no numbered archive files exist before the history starts; one process at a time; numbered archives are append-only files (open mode "ab", offset = seek(0, SEEK_END): translated site archive_appended_at_end_and_read_at_offset)',
+        'the state machine SM/Vpk.v is the implementation: tied by correspondence on sampled histories and by the translated sites, not by proof',
     ]
     ok_t = ck.translate('VpkPlace_gen', c13_vpk.translate)
-    side = ck.extra.get('translated', {}).get('VpkPlace_gen', {})
-    built = ok_t and ck.build(['Props/C13.vo', 'SM/VpkCorr.vo', 'Gen/VpkPlace_gen.vo'])
+    ok_t = ck.translate('VpkArchName_gen', c13_archname.translate) and ok_t
+    built = ok_t and ck.build(['Props/C13.vo', 'SM/VpkCorr.vo', 'Gen/VpkPlace_gen.vo', 'Gen/VpkArchName_gen.vo'])
     if built:
         ck.theorems('Props/C13.v')
-        ck.instance_obligations(IMPORTS + ['SV.Props.C13'], {
+        ck.instance_obligations(IMPORTS + ['SV.Fmt.VpkNameSplit', 'SV.Props.C13'], {
             'format_constants_in_range': 'dcfg_ok g_dcfg',
             'reader_and_writer_use_the_same_dir_sentinel': 'N.eqb g_dir_index_read g_dir_index_write',
             'reader_and_writer_use_the_same_terminator': 'N.eqb g_term_read g_term_write',
@@ -774,7 +998,19 @@ def run(ck: Ck) -> None:
             'archive_index_validated': 'g_chk_idx',
             'unrepresentable_names_rejected': 'g_chk_name',
             'instance_satisfies_theorem_premises': 'andb (vcfg_ok (g_vcfg true (Some 1024%N))) (vcfg_ok (g_vcfg false None))',
+            'ext_split_is_at_the_last_dot': 'split_kind_ok g_ext_split',
+            # archive file names (Gen/VpkArchName_gen.v): premises of c13_dir_prefix_exact / c13_arch_names_coincide / c13_arch_filename_*
+            'filename_setter_removes_the_tested_suffix': 'setter_ok g_ncfg',
+            'write_site_prefix_is_the_dir_prefix': 'site_ok g_ncfg (n_writer g_ncfg)',
+            'read_sites_prefix_is_the_dir_prefix': 'forallb (site_ok g_ncfg) (n_readers g_ncfg)',
+            'dir_suffix_same_in_get_arch_filename_and_setter': 'bytes_eqb (n_dir_suffix g_ncfg) (n_suffix g_ncfg)',
+            'numbered_archives_distinct_from_dir_file': 'numbered_ok g_ncfg',
+            'arch_naming_instance_satisfies_theorem_premises': 'ncfg_ok g_ncfg',
+            'archive_sites_same_folder_and_index': 'andb g_index_args_ok g_sites_join_folder',
+            'archive_appended_at_end_and_read_at_offset': 'g_archive_append_at_end',
+            'deprecated_file_prefix_setter_consistent': 'g_prefix_setter_consistent',
         }, name='vpkinst')
+        corr_archnames(ck)
         corr_machine(ck)
         corr_decode(ck)
         corr_names(ck)
@@ -808,6 +1044,12 @@ def replay(data: dict) -> int:
             print('    impl  :', s['obs'])
             print('    expect:', {k: (dg(v), True) for k, v in e['map'].items()})
         print('filenames():', got['names'])
+        return 0
+    if 'fname' in r:
+        dp, sites = arch_sites_impl(r['fname'], list(r['indexes']))
+        print('VPK file name:', r['fname'], '-> _dir_prefix', repr(dp))
+        for i, row in zip(r['indexes'], sites):
+            print(f'  archive {i}: FileInfo.write appends to {row[0]!r}; read opens {row[1]!r}; verify opens {row[2]!r}')
         return 0
     print(r)
     return 0
